@@ -16,7 +16,7 @@ import (
 )
 
 func init() {
-	fw.Register(&fw.Check{ID: "C14", Level: "exploration", Run: runC14, QuickBudget: 90, ThoroughBudget: 900})
+	fw.Register(&fw.Check{ID: "C14", Level: "exploration", Run: runC14, QuickBudget: 300, ThoroughBudget: 1200})
 }
 
 type c14Layout struct {
